@@ -18,6 +18,8 @@ const char* const kFormats[] = {
     "%a, %d %b %Y %H:%M:%S %z",
     "%E4Y-%m-%d %H:%M:%E3S %Ez",
     "%Y-%m-%dT%H:%M:%E*S%Ez",
+    "%Z|%z|%Ez|%E*z|%%|%E5S|%E2f",
+    "%s %a %b %e %T %G-W%V-%u %y %C %I%p",
 };
 const int kNumFormats = sizeof(kFormats) / sizeof(*kFormats);
 
